@@ -436,6 +436,28 @@ def R6_plumbing(ctx):
         rets = [r for r in rows if r.kind == "return" and result_variant(U(r.ret)) == "Ok"]
         ok = ok and bool(rets)
     ctx.check(ok, "restriction-table:every-row-appended", why, b.where(), detail="for row in rows: map.entry(row.edge_id).or_default().push(row.to_restriction()?)")
+    # the restricted-turn table: the file's records, read by header name into RestrictedEdgePair, all of them, unmodified
+    tbs = [bb_ for p_, bb_ in F.bodies.items() if p_.startswith("<" + CFG + "turn_restrictions::turn_restriction_builder::TurnRestrictionBuilder as ") and p_.endswith("::build")]
+    if not tbs:
+        raise AnchorMissing("TurnRestrictionBuilder::build")
+    tb_ = tbs[0]
+    PAIR = CFG + "turn_restrictions::turn_restriction_service::RestrictedEdgePair"
+    fcs = [c for c in tb_.calls() if (c.callee or "").endswith("read_utils::from_csv")]
+    okt = len(fcs) == 1 and (fcs[0].func.get("targs") or [None])[0] == PAIR
+    ctx.check(okt, "turn-table:records-read-by-header-name", "the restricted-turn file is not deserialised into RestrictedEdgePair (named fields prev_edge_id / next_edge_id, matched by header): read as %s, a positional type takes whatever the first columns are" % ((fcs[0].func.get("targs") or ["?"])[0].split("::")[-1][:60] if fcs else "nothing"), tb_.where(), detail="from_csv::<RestrictedEdgePair>(file, has_headers = true)")
+    if okt:
+        want_src = clean(Terms(tb_).call_term(fcs[0].term, fcs[0].bb))
+        hdr = clean(Terms(tb_).operand(fcs[0].args[1], fcs[0].bb)) == ("const", "bool", True)
+        oks_ = hdr
+        for r in table(tb_, max_paths=20000):
+            if r.end == "return" and result_variant(r.ret) == "Ok":
+                svc_ = strip_maps(agg_payload(clean(r.ret))) if "strip_maps" in globals() else agg_payload(clean(r.ret))
+                while svc_[0] == "call" and len(svc_[2]) == 1:
+                    svc_ = svc_[2][0]
+                fld_ = dict(svc_[3]).get("restricted_edge_pairs") if svc_[0] == "agg" else None
+                base_, steps_ = chain_steps(F, fld_) if fld_ is not None else (None, [])
+                oks_ = oks_ and fld_ is not None and clean(base_) == want_src and not [n for n, _ in steps_ if n not in ("iter", "into_iter", "cloned", "copied", "collect", "into_vec", "to_vec")]
+        ctx.check(oks_, "turn-table:every-record-unmodified", "the service's restricted_edge_pairs is not the set of all records of the file as read (headers on, no mapping/filtering in between)", tb_.where(), detail="records.iter().cloned().collect()")
     # services
     FMS = "routee_compass_core::model::frontier::frontier_model_service::FrontierModelService"
     for svc, model, field, src in (
